@@ -18,7 +18,7 @@ from . import util as U
 
 PID = "C19"
 NAMES = ["a", "b", "c", "k1", "long-name", "x.y", "tag", "param-tags", "_", "q"]
-PREFIXES = ["p", "foo", "a.b", "x-y", "_x", "tag"]
+PREFIXES = ["p", "foo", "a.b", "x-y", "_x", "tag", "_", "_"]  # `_` is an ordinary prefix: `#:_{:a 1}` = `{:_/a 1}`
 
 
 def h(b):
@@ -37,6 +37,8 @@ def gen_key(rng, prefix):
         return ":_/" + n, ":" + n
     if r < 0.45:
         ns = rng.choice(["other", prefix, "z"])
+        if ns == "_":
+            return ":_/" + n, ":" + n  # the prefix `_` does not change what `_/` means inside the literal
         return ":%s/%s" % (ns, n), ":%s/%s" % (ns, n)
     if r < 0.6:
         return n, "%s/%s" % (prefix, n)
@@ -44,6 +46,8 @@ def gen_key(rng, prefix):
         return "_/" + n, n
     if r < 0.76:
         ns = rng.choice(["other", prefix])
+        if ns == "_":
+            return "_/" + n, n
         return "%s/%s" % (ns, n), "%s/%s" % (ns, n)
     other = rng.choice(["%d" % rng.randrange(100), '"s%d"' % rng.randrange(9), "[%s 1]" % n, "\\x", "nil", "{:%s 1}" % n, "#{:%s}" % n, "1.5", "(:%s)" % n])
     return other, other
@@ -60,7 +64,7 @@ def nsmap_case(rng):
     if n >= 2 and rng.random() < 0.25:
         # plant a collision that only exists after qualification
         nm = rng.choice(NAMES[:5])
-        kind = rng.choice(["kw", "sym", "under"])
+        kind = rng.choice(["kw", "sym", "under"]) if prefix != "_" else "under"  # with the prefix `_`, `:_/a` is stripped, not a twin of `:a`
         if kind == "kw":
             ents[0] = (":" + nm, ":%s/%s" % (prefix, nm), "1")
             ents[-1] = (":%s/%s" % (prefix, nm), ":%s/%s" % (prefix, nm), "2")
@@ -77,7 +81,8 @@ def nsmap_case(rng):
     return a.encode(), b.encode()
 
 
-ANN_KEYS = ["a", "b", "tag", "param-tags", "c", "x/k", "y/k", "spec/tag", "my.lib/a", "x/a"]
+ANN_KEYS = ["a", "b", "tag", "param-tags", "c", "x/k", "y/k", "spec/tag", "my.lib/a", "x/a",
+            "ab", "a/b", "a/bc", "ab/c", "abc"]  # distinct keys whose namespace and name bytes concatenate alike
 
 
 def gen_ann(rng):
